@@ -989,35 +989,42 @@ impl<T: Serialize + for<'de> Deserialize<'de> + Clone + PartialEq + Send + Sync 
             ))
         })?;
 
+        let file_len = file.metadata().map_err(P2PError::Io)?.len();
+        let mut position = 0u64;
         let mut entries_recovered = 0u64;
         let mut buffer = Vec::new();
 
         loop {
-            // Read entry size
-            let mut size_bytes = [0u8; 4];
-            match file.read_exact(&mut size_bytes) {
-                Ok(()) => {}
-                Err(e) if e.kind() == std::io::ErrorKind::UnexpectedEof => break,
-                Err(e) => return Err(P2PError::Io(e)),
+            // A record needs its 4-byte length prefix and that many bytes after
+            // it.  Anything shorter is a torn tail: report it and stop, without
+            // ever sizing the buffer from a length the file cannot hold.
+            let remaining = file_len.saturating_sub(position);
+            if remaining == 0 {
+                break;
             }
-
-            let entry_size = u32::from_le_bytes(size_bytes) as usize;
+            let mut size_bytes = [0u8; 4];
+            let entry_size = if remaining < 4 {
+                None
+            } else {
+                file.read_exact(&mut size_bytes).map_err(P2PError::Io)?;
+                Some(u32::from_le_bytes(size_bytes) as u64).filter(|n| *n <= remaining - 4)
+            };
+            let Some(entry_size) = entry_size else {
+                stats.corruption_events.push(CorruptionEvent {
+                    file_path: path.to_path_buf(),
+                    corruption_type: CorruptionType::IncompleteWrite,
+                    offset: position,
+                    recovery_action: RecoveryAction::Skipped,
+                });
+                stats.entries_failed += 1;
+                break;
+            };
+            let entry_size = entry_size as usize;
 
             // Read entry data
             buffer.resize(entry_size, 0);
-            match file.read_exact(&mut buffer) {
-                Ok(()) => {}
-                Err(_e) => {
-                    stats.corruption_events.push(CorruptionEvent {
-                        file_path: path.to_path_buf(),
-                        corruption_type: CorruptionType::IncompleteWrite,
-                        offset: file.stream_position().unwrap_or(0),
-                        recovery_action: RecoveryAction::Skipped,
-                    });
-                    stats.entries_failed += 1;
-                    continue;
-                }
-            }
+            file.read_exact(&mut buffer).map_err(P2PError::Io)?;
+            position += 4 + entry_size as u64;
 
             // Deserialize entry
             let entry: WalEntry = match postcard::from_bytes(&buffer) {
@@ -1243,6 +1250,14 @@ impl<T: Serialize + for<'de> Deserialize<'de> + Clone + PartialEq + Send + Sync 
 
         let header_size = u32::from_le_bytes(size_bytes) as usize;
 
+        // Never size the buffer from a length the file cannot hold
+        let file_len = file.metadata().map_err(P2PError::Io)?.len();
+        if header_size as u64 > file_len.saturating_sub(4) {
+            return Err(P2PError::Storage(StorageError::CorruptionDetected(
+                "Snapshot header length exceeds the file size".to_string().into(),
+            )));
+        }
+
         // Read header
         let mut header_data = vec![0u8; header_size];
         file.read_exact(&mut header_data).map_err(|e| {
@@ -1314,19 +1329,32 @@ impl<T: Serialize + for<'de> Deserialize<'de> + Clone + PartialEq + Send + Sync 
             ))
         })?;
 
+        let file_len = file.metadata().map_err(P2PError::Io)?.len();
         let mut max_transaction_id = 0u64;
         let mut buffer = Vec::new();
 
         loop {
             // Read entry size
-            let mut size_bytes = [0u8; 4];
-            match file.read_exact(&mut size_bytes) {
-                Ok(()) => {}
-                Err(e) if e.kind() == std::io::ErrorKind::UnexpectedEof => break,
-                Err(e) => return Err(P2PError::Io(e)),
+            let position = file.stream_position().map_err(P2PError::Io)?;
+            if position >= file_len {
+                break;
             }
+            let mut size_bytes = [0u8; 4];
+            file.read_exact(&mut size_bytes).map_err(|e| {
+                P2PError::Storage(StorageError::Database(
+                    format!("Failed to read entry size: {e}").into(),
+                ))
+            })?;
 
             let entry_size = u32::from_le_bytes(size_bytes) as usize;
+
+            // Never size the buffer from a length the file cannot hold
+            let remaining = file_len.saturating_sub(position + 4);
+            if entry_size as u64 > remaining {
+                return Err(P2PError::Storage(StorageError::CorruptionDetected(
+                    "WAL record length exceeds the file size".to_string().into(),
+                )));
+            }
 
             // Read entry data
             buffer.resize(entry_size, 0);
